@@ -556,16 +556,15 @@ class BaseCurve(Intface_BaseCurve):
         self.weights = newweights
 
         if oldctrlpoints is not None:
-            oldctrlpoints = list(oldctrlpoints)
-            for i, weight in enumerate(oldweights):
-                oldctrlpoints[i] *= weight
+            oldctrlpoints = [
+                weight * point for weight, point in zip(oldweights, oldctrlpoints)
+            ]
             newctrlpoints = []
             for i, line in enumerate(matrix):
-                newctrlpoints.append(0 * oldctrlpoints[0])
+                newpoint = 0 * oldctrlpoints[0]
                 for j, point in enumerate(oldctrlpoints):
-                    newpoint = line[j] * point
-                    newpoint /= self.weights[i]
-                    newctrlpoints[i] += newpoint
+                    newpoint = newpoint + line[j] * point
+                newctrlpoints.append(newpoint / self.weights[i])
             self.ctrlpoints = newctrlpoints
 
 
